@@ -68,6 +68,7 @@ struct Scenario {
   std::string name, family;
   std::map<std::string, std::string> files;   // initial files besides the manifest of variant 0
   std::vector<std::string> dirs;
+  std::string builddir;      // value of the manifest's `builddir` binding: where ninja keeps its logs and lock file
   std::vector<Variant> variants;
   std::vector<Variant> twin_variants;        // metamorphic twin (C10/C11): same statements, information declared in the manifest
   std::vector<Op> ops;
